@@ -51,6 +51,22 @@ pub enum Error {
 
 pub type RdpResult<T> = Result<T, Error>;
 
+/// std::cell::Cell stand-in: interior mutability is outside Verus' std support; `get` returns an UNSPECIFIED value
+/// (sound over-approximation: nothing can be proved from a Cell's content, so code whose behaviour depends on it
+/// must satisfy its contract for every content)
+#[verifier::external_body]
+#[verifier::reject_recursive_types(T)]
+pub struct Cell<T> { _p: core::marker::PhantomData<T> }
+impl<T: Copy> Cell<T> {
+    #[verifier::external_body]
+    pub fn new(v: T) -> (r: Cell<T>) { unimplemented!() }
+    #[verifier::external_body]
+    pub fn get(&self) -> (r: T) { unimplemented!() }
+    #[verifier::external_body]
+    pub fn set(&self, v: T) { unimplemented!() }
+}
+
+
 /// the error that RdpClient::try_write swallows; I/O and serialization never produce it
 pub open spec fn automata_err<T>(r: RdpResult<T>) -> bool {
     r is Err && r->Err_0 is RdpError && r->Err_0->RdpError_0.kind == RdpErrorKind::InvalidAutomata
@@ -323,6 +339,17 @@ pub broadcast axiom fn axiom_duplex_w<S: Duplex>(s: &S)
 pub broadcast axiom fn axiom_duplex_r<S: Duplex>(s: &S)
     ensures #[trigger] s.rd() == s.rest();
 pub broadcast group axiom_duplex { axiom_duplex_w, axiom_duplex_r }
+
+// ---- commutativity of the bitwise operators (PROVED by bit_vector): Verus' default integer encoding leaves & | ^ uninterpreted, so
+// `a & b` and `b & a` would be unrelated terms and a harmless operand swap in the code would make a proof fail
+pub broadcast proof fn lemma_and_comm_u8(a: u8, b: u8) ensures #[trigger] (a & b) == b & a { assert(a & b == b & a) by(bit_vector); }
+pub broadcast proof fn lemma_or_comm_u8(a: u8, b: u8) ensures #[trigger] (a | b) == b | a { assert(a | b == b | a) by(bit_vector); }
+pub broadcast proof fn lemma_and_comm_u16(a: u16, b: u16) ensures #[trigger] (a & b) == b & a { assert(a & b == b & a) by(bit_vector); }
+pub broadcast proof fn lemma_or_comm_u16(a: u16, b: u16) ensures #[trigger] (a | b) == b | a { assert(a | b == b | a) by(bit_vector); }
+pub broadcast proof fn lemma_and_comm_u32(a: u32, b: u32) ensures #[trigger] (a & b) == b & a { assert(a & b == b & a) by(bit_vector); }
+pub broadcast proof fn lemma_or_comm_u32(a: u32, b: u32) ensures #[trigger] (a | b) == b | a { assert(a | b == b | a) by(bit_vector); }
+pub broadcast group bit_commute { lemma_and_comm_u8, lemma_or_comm_u8, lemma_and_comm_u16, lemma_or_comm_u16, lemma_and_comm_u32, lemma_or_comm_u32 }
+
 
 // ---- std functions without a vstd specification (TRUSTED: their documented meaning)
 pub assume_specification<T: Clone> [<[T]>::to_vec] (s: &[T]) -> (r: Vec<T>)
